@@ -49,6 +49,7 @@ def run(F, rep, tier):
     child_span(F, rep)
     second_definition_is_reported(F, rep)
     source_text_keeps_its_lines(F, rep)
+    text_reaches_the_lexer_as_read(F, rep)
     # a mismatch between a call's literal arguments and the callee's parameters is the call's: it is found there when the callee
     # has been checked before the caller - which is the dependency order, i.e. every mention is an edge (shared with C11)
     import c11
@@ -972,3 +973,53 @@ def source_text_keeps_its_lines(F, rep, rule="LINE"):
            "the source text is handed on with a line feed exactly where the file has one (%d rewriting calls)" % n if not bad else
            "sylt::read_file rewrites the source text before it is tokenised: %s - every error in a file with CRLF line endings is "
            "reported at about twice its line" % bad[0][1], line_of(bad[0][0]) if bad else fn["sp"])
+
+
+def text_reaches_the_lexer_as_read(F, rep, rule="LINE"):
+    """.. and between the reader and the lexer nothing is cut off either: every call of the tokenizer is handed a text variable as it is
+    (a `trim_start()` on the way drops the blank lines a file starts with, and every line after them is reported too early), and the
+    tokenizer gives the lexer its parameter (C17 reads the same obligations: the token stream is that of the *whole* file)."""
+    T = "sylt_tokenizer::string_to_tokens"
+    n = 0
+    for fn in F.own_fns():
+        if fn["_path"] == T:
+            continue
+        lets = {}
+        for l in nodes(fn_body(fn), "Let"):
+            for b in pat_bindings(l.get("pat")):
+                lets[b["hid"]] = l
+        for c in nodes(fn_body(fn), "Call"):
+            if callee(c) != T or len(c["args"]) < 2:
+                continue
+            n += 1
+            CUTS = ("trim", "trim_start", "trim_end", "strip_prefix", "strip_suffix", "trim_start_matches", "trim_end_matches", "trim_matches",
+                    "replace", "replacen", "to_lowercase", "to_uppercase", "split_at", "split_once", "get", "get_unchecked", "lines", "chars",
+                    "split", "skip", "truncate", "retain", "drain", "split_off")
+            why = None
+            todo, seen = [c["args"][1]], 0
+            while todo and why is None and seen < 40:
+                seen += 1
+                a = todo.pop()
+                for x in nodes(a):
+                    if x.get("k") == "MethodCall" and x["m"] in CUTS:
+                        why = "`%s`" % pp(x)[:40]
+                        break
+                    if x.get("k") == "Index" and "Range" in (x.get("callee") or "") + str(peel(x.get("i") or {}).get("ty") or "") + str(peel(x.get("i") or {}).get("k")) + str(peel(x.get("i") or {}).get("path") or ""):
+                        why = "the slice `%s`" % pp(x)[:40]
+                        break
+                    if x.get("k") == "Path" and x.get("res") == "Local" and x.get("hid") in lets and lets[x["hid"]].get("init") is not None:
+                        todo.append(lets[x["hid"]]["init"])
+            rep.ob(rule, "%s|tokenizer-gets-the-text-as-read#%d" % (last(fn["_path"], 2), n), why is None,
+                   "%s hands the tokenizer the text it was given" % last(fn["_path"], 2) if why is None else
+                   "%s hands the tokenizer %s, not the text of the file: what is cut off before the first token has lines (and bytes) "
+                   "of its own, so every position after it is reported too early" % (last(fn["_path"], 2), why), line_of(c))
+    rep.floor(rule, "calls of the tokenizer outside the tests", n, 1)
+    fn = F.fn(T)
+    rep.analysed(fn)
+    params = [b["name"] for p in fn["params"] for b in pat_bindings(p["pat"])]
+    shadow = [l for l in nodes(fn_body(fn), "Let") if {b["name"] for b in pat_bindings(l.get("pat"))} & set(params)]
+    rep.ob(rule, "string_to_tokens|lexer-gets-the-parameter", bool(params) and not shadow,
+           "the tokenizer does not rebind its parameters (%s): the lexer, the byte-to-column table and the line counter all see the "
+           "text that was passed" % ", ".join(params) if not shadow else
+           "string_to_tokens rebinds its parameter (`%s`): the text the lexer sees is not the text of the file, so a token can go "
+           "missing from the stream and positions after it shift" % ("let %s = %s" % (", ".join(b["name"] for b in pat_bindings(shadow[0].get("pat"))), pp(shadow[0].get("init"))))[:70] if shadow else "", line_of(shadow[0]) if shadow else fn["sp"])
